@@ -275,7 +275,7 @@ def shard_worker(args):
             total = sub.quick if tier == 'quick' else sub.thorough
             scale = float(os.environ.get('VERIF_SCALE', '1'))
             n = max(1, int(math.ceil(total * scale / nshards)))
-            budget = (sub.budget_quick if tier == 'quick' else sub.budget_thorough) * max(1.0, scale)
+            budget = (sub.budget_quick if tier == 'quick' else sub.budget_thorough) * max(1.0, scale) * float(os.environ.get('VERIF_BUDGET_SCALE', '1'))
             t0 = time.time()
             state = {'n': 0, 'stopped': False}
             strat = sub.strategy(tier)
@@ -553,7 +553,7 @@ def run_property(prop: str, tier: str, seed: int, only_sub: str | None = None) -
         ctxmp = mp.get_context('spawn')
         scale = max(1.0, float(os.environ.get('VERIF_SCALE', '1')))
         total_budget = sum((sb.budget_quick if tier == 'quick' else sb.budget_thorough) for nm, sb in mod.SUBCHECKS.items()
-                           if not only_sub or nm == only_sub)*scale
+                           if not only_sub or nm == only_sub)*scale*float(os.environ.get('VERIF_BUDGET_SCALE', '1'))
         with ctxmp.Pool(min(nshards, os.cpu_count() or 1)) as pool:
             try:
                 # every shard stops generating at its wall budget and every case at its CPU limit; anything beyond that
